@@ -7,8 +7,11 @@
 (*   err[g][k]   dense rank of the reference error calc_drlv2(UBI_g, gv_k) *)
 (*               among the K*G errors, E if not strictly below tol^2       *)
 (*   ev[i] = [g, n, labels[k], dr[k]]  after the i-th real call: label     *)
-(*               presented, returned count, labels (-1 unassigned, grains  *)
-(*               numbered 1..G), rank of the stored error (E = initial)    *)
+(*               presented, returned count (-1 when the trace is a block   *)
+(*               of a larger run: then the verdict reports the model's     *)
+(*               counts `ns` and the harness sums them over the blocks),   *)
+(*               labels (-1 unassigned, grains numbered 1..G), rank of the *)
+(*               stored error (E = initial, -2 = not a reference error)    *)
 (* Each event must be exactly the step ScoreAssign.tla's Call;Chunk*;Return*)
 (* produces from the current state (the chunks commute: peaks are          *)
 (* independent, so the composite step is deterministic); at the end the    *)
@@ -19,14 +22,14 @@ EXTENDS Integers, Sequences, FiniteSets, TLC, Json, IOUtils
 
 Trace == ndJsonDeserialize(IOEnv.TRACE_FILE)
 
-VARIABLES t, e, labels, drlv2, why
-vars == <<t, e, labels, drlv2, why>>
+VARIABLES t, e, labels, drlv2, why, ns
+vars == <<t, e, labels, drlv2, why, ns>>
 
 Rec == Trace[t]
 InitLabels(r) == [k \in 1..r.K |-> -1]
 InitDr(r) == [k \in 1..r.K |-> r.E]
 
-Init == /\ t = 1 /\ e = 0 /\ why = "ok"
+Init == /\ t = 1 /\ e = 0 /\ why = "ok" /\ ns = <<>>
         /\ labels = IF Len(Trace) > 0 THEN InitLabels(Trace[1]) ELSE <<>>
         /\ drlv2 = IF Len(Trace) > 0 THEN InitDr(Trace[1]) ELSE <<>>
 
@@ -40,7 +43,8 @@ Event == /\ t <= Len(Trace) /\ e < Len(Rec.ev) /\ why = "ok"
          /\ LET r == Rec  v == r.ev[e + 1]  g == v.g
             IN /\ labels' = StepLabels(r, g)
                /\ drlv2' = StepDr(r, g)
-               /\ why' = IF v.n # StepN(r, g) THEN "returned count differs from the specification's step"
+               /\ ns' = Append(ns, StepN(r, g))
+               /\ why' = IF v.n # -1 /\ v.n # StepN(r, g) THEN "returned count differs from the specification's step"
                          ELSE IF \E k \in 1..r.K : v.labels[k] # StepLabels(r, g)[k] THEN "labels after the call differ from the specification's step"
                          ELSE IF \E k \in 1..r.K : v.dr[k] # StepDr(r, g)[k] THEN "stored errors after the call differ from the specification's step"
                          ELSE "ok"
@@ -58,8 +62,8 @@ FinalWhy(r) ==
 
 Finish == /\ t <= Len(Trace) /\ (e = Len(Rec.ev) \/ why # "ok")
           /\ LET w == IF why # "ok" THEN why ELSE FinalWhy(Rec)
-             IN PrintT("@@" \o ToJson([id |-> Rec.id, ok |-> (w = "ok"), why |-> w, consumed |-> e]))
-          /\ t' = t + 1 /\ e' = 0 /\ why' = "ok"
+             IN PrintT("@@" \o ToJson([id |-> Rec.id, ok |-> (w = "ok"), why |-> w, consumed |-> e, ns |-> ns]))
+          /\ t' = t + 1 /\ e' = 0 /\ why' = "ok" /\ ns' = <<>>
           /\ labels' = IF t + 1 <= Len(Trace) THEN InitLabels(Trace[t + 1]) ELSE <<>>
           /\ drlv2' = IF t + 1 <= Len(Trace) THEN InitDr(Trace[t + 1]) ELSE <<>>
 
